@@ -89,7 +89,10 @@ def populate(rng, L, steps, n=None, names=None, allow_invalid=False, now=None, o
             loc = odir + '/' + deep + '/' + base
             pv = pct(loc) if (top is None or pv.startswith('/')) else pct(loc[len(top) + 1:])
         d = date_fn(rng) if date_fn else rand_date(rng, now)
-        G.add_trashed(steps, tdir, nm, pv, iso(d), rng.choice(kinds), tag=str(i))
+        k_ = rng.choice(kinds)
+        if k_ == 'link' and rng.random() < 0.5:
+            k_ = rng.choice(['link_absdir', 'link_absdir', 'link_absfile'])     # links whose target exists (outside the trash)
+        G.add_trashed(steps, tdir, nm, pv, iso(d), k_, tag=str(i))
         made.append((tdir, nm, loc, iso(d)))
     return made
 
